@@ -291,9 +291,20 @@ Definition parser_view (root : list string) (g : gpath) : string * list string :
     end
   else (pstr g, all_parts g).
 
+(* the same for the parser as found in the source: the current is_ignored re-roots only paths that are literally under the root
+   (parser_view); under the shape of proposed_fixes/C09-ignore-reroot-relative.diff (Gen.repo_ignore_resolves_before_reroot) the path is
+   resolved against the working directory first, so every spelling of a file under the root is seen by its path inside the root *)
+Definition parser_view_at (cwd root : list string) (g : gpath) : string * list string :=
+  if repo_ignore_resolves_before_reroot then
+    match strip_prefix root (resolve cwd g) with
+    | Some r => (unrooted r, r)
+    | None => (pstr g, all_parts g)
+    end
+  else parser_view root g.
+
 Definition orch_ignored (q : quirks) (e : env) (g : gpath) (rel : list string) : bool :=
   if q_ignore_no_reroot q then
-    let v := parser_view (e_root e) g in repo_ignored (e_root_pats e) (fst v) (snd v)
+    let v := parser_view_at (e_cwd e) (e_root e) g in repo_ignored (e_root_pats e) (fst v) (snd v)
   else repo_ignored (e_root_pats e) (unrooted rel) rel.
 
 (* rule-level ignore parser.  In the current source a rule built with get_ignore_parser() and no root gets a parser rooted at the
@@ -302,9 +313,9 @@ Definition orch_ignored (q : quirks) (e : env) (g : gpath) (rel : list string) :
 Definition rule_ignored (q : quirks) (e : env) (g : gpath) (rel : list string) : bool :=
   if q_rule_parser_cwd q && ignore_parser_default_root_is_cwd then
     if list_eqb (e_cwd e) (e_root e) then
-      let v := parser_view (e_root e) g in repo_ignored (e_root_pats e) (fst v) (snd v)
+      let v := parser_view_at (e_cwd e) (e_root e) g in repo_ignored (e_root_pats e) (fst v) (snd v)
     else
-      let v := parser_view (e_cwd e) g in repo_ignored (e_cwd_pats e) (fst v) (snd v)
+      let v := parser_view_at (e_cwd e) (e_cwd e) g in repo_ignored (e_cwd_pats e) (fst v) (snd v)
   else orch_ignored q e g rel.
 
 (* file-placement: PathResolver.get_relative_path *)
@@ -431,5 +442,18 @@ Definition xfile_result_fast (gate : bool) (q : quirks) (e : env) (sg : cmdsig) 
 
 Definition dry_result := xfile_result false.
 Definition dry_spec := xfile_spec false.
+
+(* ---------- stores keyed by a path string: DRY inline-ignore ranges, DRY file contents kept for the directive filter ----------
+   The rule stores what it found in a file under one spelling of the file's path (key scope read from the source) and, when the
+   violations are filtered, looks it up under the path string of the violation (the path as it reached lint_file).  A suppression
+   directive of the file is honoured exactly when the lookup key finds the stored entry. *)
+Definition key_of (s : pscope) (cwd : list string) (g : gpath) : string :=
+  match s with ScResolvedStr => rooted (resolve cwd g) | _ => pstr g end.
+
+Definition store_hit (store look : pscope) (cwd : list string) (g : gpath) : bool :=
+  String.eqb (key_of store cwd g) (key_of look cwd g).
+
+Definition dry_directives_honoured (cwd : list string) (g : gpath) : bool :=
+  store_hit dry_inline_store_key dry_inline_lookup_key cwd g && store_hit dry_content_store_key dry_content_lookup_key cwd g.
 
 Definition find_sig (name : string) : option cmdsig := find (fun s => String.eqb (cs_name s) name) command_sigs.
